@@ -32,12 +32,13 @@ macro_rules! rt {
         fn $name() {
             let $v: $t = $mk;
             let (buf, n) = enc(&$v);
-            assert!($v.cbor_len(&mut ()) == n);                                 // C07
+            assert!($v.cbor_len(&mut ()) == n, "cbor_len(v) != number of bytes written");   // C07
             let mut d = Decoder::new(&buf[..]);
             let r: Result<$t, _> = <$t as Decode<()>>::decode(&mut d, &mut ());
             match &r {
-                Ok(w) => { let ($a, $b) = (&$v, w); assert!($eq); assert!(d.position() == n) }   // C01
-                Err(_) => assert!(false)
+                Ok(w) => { let ($a, $b) = (&$v, w); assert!($eq, "decode(encode(v)) != v");
+                           assert!(d.position() == n, "decoder did not stop exactly after the bytes produced") }   // C01
+                Err(_) => assert!(false, "decode(encode(v)) failed")
             }
             kani::cover!(n >= 1);
         }
@@ -51,11 +52,12 @@ macro_rules! rt_int {
             let v: $t = kani::any();
             let (buf, n) = enc(&v);
             let (want, wn) = pref_int(v as i128);
-            assert!(n == wn && prefix_eq(&buf[..], &want, wn));                  // C03: shortest form, exact bytes
-            assert!(v.cbor_len(&mut ()) == n);                                   // C07
+            assert!(n == wn && prefix_eq(&buf[..], &want, wn), "bytes differ from the RFC 8949 preferred serialisation");   // C03
+            assert!(v.cbor_len(&mut ()) == n, "cbor_len(v) != number of bytes written");                                     // C07
             let mut d = Decoder::new(&buf[..]);
             let r: Result<$t, _> = <$t as Decode<()>>::decode(&mut d, &mut ());
-            match &r { Ok(w) => { assert!(*w == v); assert!(d.position() == n) } Err(_) => assert!(false) }
+            match &r { Ok(w) => { assert!(*w == v, "decode(encode(v)) != v"); assert!(d.position() == n, "decoder did not stop exactly after the bytes produced") }
+                       Err(_) => assert!(false, "decode(encode(v)) failed") }
             kani::cover!(n == 9 || core::mem::size_of::<$t>() < 8);
         }
     }
